@@ -19,6 +19,7 @@ import (
 	"cosmossdk.io/x/feegrant"
 	codectypes "github.com/cosmos/cosmos-sdk/codec/types"
 	sdk "github.com/cosmos/cosmos-sdk/types"
+	"github.com/cosmos/cosmos-sdk/x/authz"
 	bankkeeper "github.com/cosmos/cosmos-sdk/x/bank/keeper"
 	banktypes "github.com/cosmos/cosmos-sdk/x/bank/types"
 	ethcommon "github.com/ethereum/go-ethereum/common"
@@ -671,7 +672,7 @@ func TestC03(t *testing.T) {
 		if verdict == "violation" {
 			r.Hit("cross-principal-write", fmt.Sprintf("%s %s: state attributed to principal %d changed: %v (code=%d log=%.200s)", o.typ, o.sc, o.victim, diff, o.res.Code, o.res.Log), line)
 		}
-		unauthorisedScenario := o.sc == "a" || o.sc == "e" || o.sc == "e0" || strings.HasPrefix(o.sc, "d")
+		unauthorisedScenario := o.sc == "a" || o.sc == "x" || o.sc == "e" || o.sc == "e0" || strings.HasPrefix(o.sc, "d")
 		if unauthorisedScenario && ok {
 			r.Hit("unauthorised-accepted", fmt.Sprintf("%s scenario %s was accepted", o.typ, o.sc), line)
 		}
@@ -981,7 +982,7 @@ func TestC03(t *testing.T) {
 		}
 		A, B := pick2(pool)
 		// applicable scenarios
-		scs := []string{"ok", "a", "b", "e", "e0"}
+		scs := []string{"ok", "a", "b", "e", "e0", "x", "x", "xb", "xs"}
 		if m.NeedsAuthority {
 			scs = []string{"d", "d3", "gov", "e", "e0"}
 			if len(m.IdentityFields) > 0 && m.IdentityFields[0].Name == "Authority" {
@@ -1026,6 +1027,35 @@ func TestC03(t *testing.T) {
 			}
 			grants[[2]int{B.pid, A.pid}] = true
 			deliver = func() FATxResult { return w.Deliver(A.acc, B.acc, msg) }
+		case "x", "xb", "xs":
+			// the message travels INSIDE an authz.MsgExec whose grantee is the transaction signer A (wrapped once, or
+			// twice): authz executes an inner message without any authorisation when its declared signer is the
+			// grantee itself, and hands it to the paloma handler, which trusts metadata.creator.
+			//   x : creator B, declared signer A, no fee grant   -> nothing of B's may change
+			//   xb: the same with a fee grant B -> A               -> A acts for B, as when unwrapped
+			//   xs: A's own message, wrapped                        -> as when unwrapped
+			who := B
+			if sc == "xs" {
+				who = A
+			}
+			msg = m.Build(w, who.acc, r.Rng, hostile)
+			o.creator = who.pid
+			if sc == "xb" {
+				if g := fa.GrantFee(B.acc, A.acc); !g.OK() {
+					t.Fatalf("grant: %s %s", g.Log, g.BlockErr)
+				}
+				grants[[2]int{B.pid, A.pid}] = true
+			}
+			depth := 1 + r.Rng.Intn(2)
+			deliver = func() FATxResult {
+				ZooSetMeta(msg, who.acc.Addr.String(), A.acc.Addr.String())
+				var inner sdk.Msg = msg
+				for k := 0; k < depth; k++ {
+					ex := authz.NewMsgExec(A.acc.Addr, []sdk.Msg{inner})
+					inner = &ex
+				}
+				return fa.DeliverTx(A.acc, inner)
+			}
 		case "e":
 			msg = m.Build(w, B.acc, r.Rng, hostile)
 			o.creator, o.metaSigners = B.pid, []int{B.pid}
@@ -1116,11 +1146,14 @@ func TestC03(t *testing.T) {
 		cfBefore := dir.confirmSnapshot()
 		o.res = deliver()
 		o.after = c03Attributed(w, fa.CtxCached(), victim)
+		wrapped := strings.HasPrefix(sc, "x")
 		if p := faRecover(func() {
-			if vb, ok := c03WireCopy(fa, msg).(sdk.HasValidateBasic); ok && vb.ValidateBasic() != nil {
+			// baseapp validates only the transaction's own messages statelessly; a message inside an authz
+			// MsgExec is validated when authz dispatches it, i.e. AFTER the ante chain
+			if vb, ok := c03WireCopy(fa, msg).(sdk.HasValidateBasic); ok && vb.ValidateBasic() != nil && !wrapped {
 				o.pre = true
 			}
-		}); p != "" {
+		}); p != "" && !wrapped {
 			o.pre = true
 		}
 		if o.res.BlockErr != "" && !o.res.Panicked {
@@ -1131,7 +1164,7 @@ func TestC03(t *testing.T) {
 		}
 		record(o)
 		dir.checkConfirms(cfBefore, fmt.Sprintf("%s %s signer=%d creator=%d victim=%d redirected=%v", o.typ, o.sc, o.txSigner, o.creator, o.victim, o.redirected))
-		if sc == "b" {
+		if sc == "b" || sc == "xb" {
 			rv := feegrant.NewMsgRevokeAllowance(B.acc.Addr, A.acc.Addr)
 			if g := fa.DeliverTx(B.acc, &rv); !g.OK() {
 				t.Fatalf("revoke: %s %s", g.Log, g.BlockErr)
